@@ -459,12 +459,95 @@ func c17HTTP(ev *vlib.Evidence, idx int) {
 	}
 }
 
+// c17HTTPExtra: request bodies sent without a Content-Length (chunked
+// transfer encoding), and concurrent callers sharing one HTTPService.
+func c17HTTPExtra(ev *vlib.Evidence, idx int) {
+	r := vlib.Rand("C17-http-extra", idx)
+	ln, err := net.Listen("tcp", "127.0.0.1:0")
+	if err != nil {
+		panic(err)
+	}
+	hs := &jsonrpc2.HTTPServer{}
+	hs.Server.Register("c17_", &C17Echo{})
+	srv := &http.Server{Handler: hs}
+	go srv.Serve(ln)
+	defer srv.Close()
+	url := "http://" + ln.Addr().String() + "/"
+	// (1) chunked request body
+	m := genMessage(r, 0, idx, 50000)
+	var payload map[string]interface{}
+	json.Unmarshal([]byte(canon(m)), &payload)
+	pj, _ := json.Marshal(payload)
+	body := fmt.Sprintf(`{"jsonrpc":"2.0","id":7,"method":"c17_echo","params":[%s]}`, pj)
+	req, _ := http.NewRequest(http.MethodPost, url, struct{ io.Reader }{strings.NewReader(body)}) // unknown length => chunked
+	req.Header.Set("Content-Type", "application/json")
+	resp, err := (&http.Client{Timeout: 30 * time.Second}).Do(req)
+	ev.Case(fmt.Sprintf("http chunked-request size=%d idx=%d", len(body), idx), true)
+	ev.Count("messages:http-chunked-request", 1)
+	if err != nil {
+		ev.Violate("http:chunked-request-failed", map[string]interface{}{"err": err.Error()})
+	} else {
+		rb, _ := io.ReadAll(resp.Body)
+		resp.Body.Close()
+		var rm struct {
+			ID     json.RawMessage        `json:"id"`
+			Result map[string]interface{} `json:"result"`
+		}
+		json.Unmarshal(rb, &rm)
+		got, _ := json.Marshal(rm.Result)
+		if string(rm.ID) != "7" || string(got) != string(pj) {
+			ev.Violate("http:chunked-request-not-answered", map[string]interface{}{"status": resp.StatusCode, "reply_len": len(rb), "sent_len": len(body)})
+		}
+	}
+	// (2) concurrent callers on one client service: each gets the echo of its own message
+	client := &jsonrpc2.HTTPService{Endpoint: url}
+	callers := 4 + r.Intn(12)
+	var wg sync.WaitGroup
+	var mu sync.Mutex
+	wrong := 0
+	firstProblem := ""
+	for g := 0; g < callers; g++ {
+		seed := r.Int63()
+		wg.Add(1)
+		go func(g int, seed int64) {
+			defer wg.Done()
+			rr := rand.New(rand.NewSource(seed))
+			for k := 0; k < 4; k++ {
+				mm := genMessage(rr, g, k, 120000)
+				var pl, got map[string]interface{}
+				json.Unmarshal([]byte(canon(mm)), &pl)
+				pl["caller"] = fmt.Sprintf("g%d-k%d", g, k)
+				ctx, cancel := context.WithTimeout(context.Background(), 60*time.Second)
+				err := client.Call(ctx, &got, "c17_echo", pl)
+				cancel()
+				a, _ := json.Marshal(pl)
+				b, _ := json.Marshal(got)
+				if err != nil || string(a) != string(b) {
+					mu.Lock()
+					wrong++
+					if firstProblem == "" {
+						firstProblem = fmt.Sprintf("caller g%d-k%d: err=%v sent %d bytes, echo %d bytes, echo carries caller=%v", g, k, err, len(a), len(b), got["caller"])
+					}
+					mu.Unlock()
+				}
+			}
+		}(g, seed)
+	}
+	wg.Wait()
+	ev.Case(fmt.Sprintf("http concurrent-callers=%d idx=%d", callers, idx), true)
+	ev.Count("messages:http-concurrent", int64(callers*4))
+	if wrong > 0 {
+		ev.Violate("http:concurrent-callers-got-foreign-or-broken-echo", map[string]interface{}{"callers": callers, "wrong": wrong, "first": firstProblem})
+	}
+}
+
 func TestC17(t *testing.T) {
 	ev := vlib.NewEvidence("C17", "exploration",
-		"message sequences (requests, results, errors; ids of several JSON types; 0 B .. 200 kB; unicode, escapes, nesting; sizes around the 4 kB websocket buffer) written through each codec and read back through transports that deliver the same bytes as 1-byte reads, 1..7-byte pieces, random pieces, everything coalesced, or pieces with pauses: IOCodec over an in-memory byte stream, HTTP server/client over chunked loopback TCP, gorilla and gobwas client<->server over loopback TCP with the chunking conn installed below the websocket layer (both directions); plus 2..16 concurrent writers on IOCodec/TCP and gorilla with integrity and per-writer order checked; non-trivial = more than one message in the sequence; distinct = (codec, chunk mode, sequence)")
+		"message sequences (requests, results, errors; ids of several JSON types; 0 B .. 200 kB; unicode, escapes, nesting; sizes around the 4 kB websocket buffer) written through each codec and read back through transports that deliver the same bytes as 1-byte reads, 1..7-byte pieces, random pieces, everything coalesced, or pieces with pauses: IOCodec over an in-memory byte stream, HTTP server/client over chunked loopback TCP (also request bodies without Content-Length and concurrent callers on one client service), gorilla and gobwas client<->server over loopback TCP with the chunking conn installed below the websocket layer (both directions); plus 2..16 concurrent writers on IOCodec/TCP and gorilla with integrity and per-writer order checked; non-trivial = more than one message in the sequence; distinct = (codec, chunk mode, sequence)")
 	ev.Assume("the concurrent-writer clause is asserted for the codecs the binaries use (stream/TCP, HTTP, gorilla), not for gobwas")
 	parallelCases(vlib.Scale(300, 8000), 8, func(i int) { c17Stream(ev, i) })
 	parallelCases(vlib.Scale(40, 1000), 8, func(i int) { c17HTTP(ev, i) })
+	parallelCases(vlib.Scale(20, 400), 4, func(i int) { c17HTTPExtra(ev, i) })
 	parallelCases(vlib.Scale(60, 2000), 4, func(i int) { c17WS(ev, "gorilla", i) })
 	parallelCases(vlib.Scale(60, 2000), 4, func(i int) { c17WS(ev, "gobwas", i) })
 	parallelCases(vlib.Scale(40, 1000), 4, func(i int) { c17Writers(ev, "tcp", i) })
